@@ -138,3 +138,10 @@ Theorem C01_oracle_same_final_state : forall o o' : bytes,
   same_structure o o' = true -> r_final (html_tokenize SData o) = r_final (html_tokenize SData o').
 Proof. exact same_structure_same_final. Qed.
 Print Assumptions C01_oracle_same_final_state.
+
+(* the engine keeps the body of its special elements as text; each of them (regenerated table) is an
+   element whose body every HTML tokenizer reads as text, whether scripting is enabled or not *)
+Theorem C01_special_elements_have_text_bodies : forall e,
+  In e gen.GenTemplate.T_specialElements -> mem_bytes e text_body_elements = true.
+Proof. exact special_elements_text_bodies. Qed.
+Print Assumptions C01_special_elements_have_text_bodies.
